@@ -80,7 +80,7 @@ pub fn cells_for(prop: &str, directed: bool) -> Vec<Cell> {
     v
 }
 
-fn with_target(cell: &Cell, target: Option<Key>) -> Cell {
+pub fn with_target(cell: &Cell, target: Option<Key>) -> Cell {
     match cell {
         Cell::Search(c) if c.term != Term::Cycle => Cell::Search(SearchCfg { target, ..*c }),
         c => c.clone(),
@@ -372,7 +372,7 @@ pub struct RawG {
 }
 
 pub fn rawg_strategy(max_n: usize) -> impl Strategy<Value = RawG> {
-    (prop_oneof![4 => 1usize..=6, 3 => 2usize..=12, 1 => 10usize..=max_n], 0u8..30, 0u8..40, 1u8..=4, any::<bool>(), any::<u16>(), any::<u16>(), 0u8..100, prop_oneof![Just(0u8), Just(10u8), Just(25u8), Just(50u8)]).prop_flat_map(|(n, pself, ppar, prange, dup_values, root, target, guided, filt_pct)| {
+    (prop_oneof![4 => 1usize..=6.min(max_n), 3 => 2usize.min(max_n)..=12.min(max_n), 1 => 10usize.min(max_n)..=max_n], 0u8..30, 0u8..40, 1u8..=4, any::<bool>(), any::<u16>(), any::<u16>(), 0u8..100, prop_oneof![Just(0u8), Just(10u8), Just(25u8), Just(50u8)]).prop_flat_map(|(n, pself, ppar, prange, dup_values, root, target, guided, filt_pct)| {
         let maxm = (2 * n + 3).min(70);
         (proptest::collection::vec((any::<u16>(), any::<u16>(), 0u8..100, 0u8..100), 0..=maxm), proptest::collection::vec(0u8..prange, n), proptest::collection::vec(0u8..100, 0..=maxm * 2 + 2)).prop_map(move |(edges, prio, coins)| RawG { n, edges, pself, ppar, prio, prange, dup_values, root, target, guided, filt_pct, coins })
     })
